@@ -1,7 +1,7 @@
 #!/bin/sh
 # verify_seed.sh <Cxx> <k>: confirm a candidate seeded change in its scratch worktree /tmp/mut_<Cxx>
 # (applies cleanly, pinned suite unchanged, demo FAIL with / PASS without); prints one summary line.
-P=$1; K=$2; W=/tmp/mut_$P; C=$W/out/change$K
+P=$1; K=$2; W=${MUT_PREFIX:-/tmp/mut_}$P; C=$W/out/change$K
 cd $W || exit 2
 git checkout -q -- . ; git status --porcelain | grep -v '^?? out/' | head -3
 git apply --check $C/patch.diff || { echo "$P/$K APPLY-CHECK-FAILED"; exit 2; }
